@@ -25,7 +25,9 @@ RULE = ("edit histories (same operation alphabet as C06, 1..8 operations, raw ob
         "insert or family append, 0..2 operations that are not a commit, 2..4 probes of random kinds (must all refuse), commit, the "
         "same probes (must all answer, and only with line objects of the committed list). 30 % of these histories run under one more "
         "parse option set: debug 1/2 (the 'if debug' statements of delete / append / insert_after), tuple config, "
-        "auto_indent_width 1/2/3/4/8 (an input of the model: append_to_family's indent unit). The oracle also requires that remove / "
+        "auto_indent_width 1/2/3/4/8 (an input of the model: append_to_family's indent unit). Every sixth extended history starts "
+        "'blank-above-comment': ignore_blank_lines on, and an edit leaves a blank / whitespace-only line directly above an indented "
+        "comment (it changes the comment exception until the commit drops it; seeded change C07d is now caught in the plain quick budget). The oracle also requires that remove / "
         "delete take exactly the line and its descendants out of the list. "
         "non-trivial = at least one successful mutation; distinct by request.")
 LEVEL_TEXT = ("Theorems (Lean 4, Ccp.Props.C07, every config, option set and history): bootstrap is idempotent on its own output (also with "
@@ -107,6 +109,10 @@ def cases(rng, tier):
             ops = X.stale_probe_history(rng) + X.rand_ops_x(rng, rng.choice([0, 1, 2]), auto)
         else:
             ops = X.rand_ops_x(rng, rng.choice([1, 2, 3, 5, 8]), auto)
+        if i % 6 == 1:
+            ign = True
+            lines, first = X.blank_above_comment_case(rng)
+            ops = first + ops
         ops += [["commit"], X.rand_probe(rng), ["commit"], ["probe"]]
         c = E.mk_case(syntax, ign, auto, lines, ops, "extended")
         if rng.random() < 0.3:
